@@ -1,6 +1,8 @@
 import Dashu.Proofs.Int.Cmp
 import Dashu.Proofs.Int.Hist
+import Dashu.Proofs.Int.HistX
 import Dashu.Proofs.Int.FloatFit
+import Dashu.Proofs.Int.FloatProducers
 /-
   C05 — Equality, ordering and hashing follow the mathematical value in every type.
 
@@ -113,34 +115,37 @@ theorem signed_producers_canonical (W : Nat) (hW : 1 ≤ W) (a b : SRepr) (ha : 
 
 /-- **history theorem (canonical form).**  Run ANY finite program of library operations —
     constructors (`const`; `fromWords`: ANY raw word buffer through `from_buffer` + sign, which is how
-    `from_words`, the byte/chunk decoders, the parsers and `from_parts` build their result;
-    `fromUnsigned`/`fromSigned`: `From<uN>`/`From<iN>`), `clone`, `neg`, `abs`, `!`, `sqr`, `pow`, `<<`, `>>`,
-    `+`, `-`, `*`, `/`, `%`, `div_euclid`, `rem_euclid`, `&`, `|`, `^`, `ones`, and the `UBig`-only `set_bit`, `clear_bit`,
-    `clear_high_bits`, `split_bits` (both halves), `next_power_of_two` — over a register file of
-    canonical values, feeding results
-    back as operands: every register ever produced (also those produced before a panic) is
-    canonical.  (The per-operation facts are the theorems of C01/C02/C09 about the same executable
-    model; decoders and raw `from_buffer`/`clone_from` are C07/C17.) -/
-theorem history_canonical (W : Nat) (hW : 4 ≤ W) (ops : List HOp) (hok : ∀ op ∈ ops, op.Ok W)
+    `from_words`, the chunk decoders and `from_parts` build their result;
+    `fromUnsigned`/`fromSigned`: `From<uN>`/`From<iN>`; `fromStr`: `from_str_radix` on ANY text through the
+    mirrored parser; `from(Signed)Le/BeBytes`: the byte decoders on ANY byte string), `clone`, `neg`, `abs`, `!`,
+    `sqr`, `pow`, `<<`, `>>`, `+`, `-`, `*`, `/`, `%`, `div_euclid`, `rem_euclid`, `&`, `|`, `^`, `ones`, `gcd`,
+    `sqrt`, `nth_root`, the byte round trips `from_*_bytes(to_*_bytes(x))`, and the `UBig`-only `set_bit`,
+    `clear_bit`, `clear_high_bits`, `split_bits` (both halves), `next_power_of_two` — over a register file of
+    canonical values, feeding results back as operands: every register ever produced (also those produced
+    before a panic) is canonical.  (The per-operation facts are the theorems of C01/C02/C07/C09/C12 about the
+    same executable model; `clone_from` on the ledger model is C17.) -/
+theorem history_canonical (W : Nat) (hW : 4 ≤ W) (ops : List HOpX) (hok : ∀ op ∈ ops, op.Ok W)
     (env : List SRepr) (henv : ∀ r ∈ env, SCanon W r) :
-    ∀ r ∈ (hrun W ops env).1, SCanon W r :=
-  (hrun_sound W hW ops hok env henv).1
+    ∀ r ∈ (hrunX W ops env).1, SCanon W r :=
+  (hrunX_sound W hW ops hok env henv).1
 
 /-- **history theorem (values).**  The program computes exactly what the same program computes on
-    mathematical integers (`hrunSpec`: `+ - *`, truncating `/ %`, Euclidean `div_euclid/rem_euclid`, two's-complement `& | ^ !`,
-    `·2^n`, floor `/2^n`, `^`), stops at the same instruction, and panics only where the value-level
-    program does (division by zero; `pow` whose result cannot be allocated). -/
-theorem history_values (W : Nat) (hW : 4 ≤ W) (ops : List HOp) (hok : ∀ op ∈ ops, op.Ok W)
+    mathematical integers (`hrunSpecX`: `+ - *`, truncating `/ %`, Euclidean `div_euclid/rem_euclid`, two's-complement
+    `& | ^ !`, `·2^n`, floor `/2^n`, `^`, `Int.gcd`, `Nat.sqrt`, the floor `n`-th root truncated toward zero, the
+    grammar `parseRadixSpec`, the positional value of byte strings), stops at the same instruction, and panics
+    only where the value-level program does (division by zero; `pow` whose result cannot be allocated;
+    `gcd(0,0)`; zeroth root; even root of a negative). -/
+theorem history_values (W : Nat) (hW : 4 ≤ W) (ops : List HOpX) (hok : ∀ op ∈ ops, op.Ok W)
     (env : List SRepr) (henv : ∀ r ∈ env, SCanon W r) :
-    hrunSpec W ops (env.map (·.value W)) = ((hrun W ops env).1.map (·.value W), (hrun W ops env).2) :=
-  (hrun_sound W hW ops hok env henv).2
+    hrunSpecX W ops (env.map (·.value W)) = ((hrunX W ops env).1.map (·.value W), (hrunX W ops env).2) :=
+  (hrunX_sound W hW ops hok env henv).2
 
 /-- **C05 for histories.**  For any two values ever produced by such a program — by whatever
     sequence of operations — `==` holds exactly when the values are equal, `cmp` is the order of the
     values (and `Equal` exactly when `==`), and the hash feeds are equal exactly when the values are. -/
-theorem history_eq_cmp_hash (W : Nat) (hW : 4 ≤ W) (ops : List HOp) (hok : ∀ op ∈ ops, op.Ok W)
+theorem history_eq_cmp_hash (W : Nat) (hW : 4 ≤ W) (ops : List HOpX) (hok : ∀ op ∈ ops, op.Ok W)
     (env : List SRepr) (henv : ∀ r ∈ env, SCanon W r) (a b : SRepr)
-    (ha : a ∈ (hrun W ops env).1) (hb : b ∈ (hrun W ops env).1) :
+    (ha : a ∈ (hrunX W ops env).1) (hb : b ∈ (hrunX W ops env).1) :
     (a.beq W b = true ↔ a.value W = b.value W) ∧
     a.cmp b = compare (a.value W) (b.value W) ∧
     (a.cmp b = .eq ↔ a.beq W b = true) ∧
@@ -170,6 +175,27 @@ example : (hrun 64 [.mul 0 1, .div 2 1, .shl 0 70, .shr 4 70 false, .add 0 1 0, 
     [⟨false, .small (2 ^ 64 + 5)⟩, ⟨true, .small (2 ^ 100)⟩]).1.map (·.value 64)
     = [2 ^ 64 + 5, -(2 ^ 100), -((2 ^ 64 + 5) * 2 ^ 100), 2 ^ 64 + 5, (2 ^ 64 + 5) * 2 ^ 70, 2 ^ 64 + 5,
        2 ^ 64 + 5 - 2 ^ 100, 2 ^ 64 + 5] := by decide
+
+-- non-vacuity of the extended instruction set (`HOpX.Ok 64` holds: 64 is even, a multiple of 8, 36 < 2^64, the
+-- bytes are bytes): the value 2^64 = 0x1_0000000000000000 built by the parser (radix 16, with an underscore), by
+-- the little-endian and the two's-complement big-endian byte decoders (9 bytes), through a byte round trip, as
+-- gcd(2^64·3, 2^64·5), as sqrt(2^128 + 1) and as the cube root of 2^192 + 7 — seven registers, one
+-- representation (the 2-word INLINE value)
+example : (∀ op ∈ [HOpX.fromStr false 16 [49, 95, 48, 48, 48, 48, 48, 48, 48, 48, 48, 48, 48, 48, 48, 48, 48, 48],
+      .fromLeBytes [0, 0, 0, 0, 0, 0, 0, 0, 1, 0, 0], .fromSignedBeBytes [0, 1, 0, 0, 0, 0, 0, 0, 0, 0],
+      .viaLeBytes 0, .base (.const (2 ^ 64 * 3)), .base (.const (-(2 ^ 64 * 5))), .gcd 4 5,
+      .base (.const (2 ^ 128 + 1)), .sqrt 7, .base (.const (2 ^ 192 + 7)), .nthRoot 9 3], op.Ok 64) ∧
+    (hrunX 64 [HOpX.fromStr false 16 [49, 95, 48, 48, 48, 48, 48, 48, 48, 48, 48, 48, 48, 48, 48, 48, 48, 48],
+      .fromLeBytes [0, 0, 0, 0, 0, 0, 0, 0, 1, 0, 0], .fromSignedBeBytes [0, 1, 0, 0, 0, 0, 0, 0, 0, 0],
+      .viaLeBytes 0, .base (.const (2 ^ 64 * 3)), .base (.const (-(2 ^ 64 * 5))), .gcd 4 5,
+      .base (.const (2 ^ 128 + 1)), .sqrt 7, .base (.const (2 ^ 192 + 7)), .nthRoot 9 3] []).1.map
+        (fun r => decide (r = ⟨false, .small (2 ^ 64)⟩))
+      = [true, true, true, true, false, false, true, false, true, false, true] := by
+  refine ⟨?_, by decide +kernel⟩
+  intro op hop
+  simp only [List.mem_cons, List.mem_nil_iff, or_false] at hop
+  rcases hop with rfl | rfl | rfl | rfl | rfl | rfl | rfl | rfl | rfl | rfl | rfl <;>
+    simp [HOpX.Ok, HOp.Ok]
 
 -- ================================================================== floats
 
@@ -250,6 +276,63 @@ example : FCanon 10 (ofFloatRepr ⟨123, 1⟩) ∧ FCanon 10 (ofFloatRepr ⟨1, 
     ofFloatRepr (Float.ctxAddSub 10 .halfEven Float.coarseNone (fun s => Float.digitsI 10 s) 3 ⟨123, 1⟩ ⟨1, 0⟩ (-1)).1
       = ⟨1229, 0⟩ := by
   refine ⟨⟨by decide, by decide⟩, ⟨by decide, by decide⟩, by decide⟩
+
+/-- **The remaining `Context` producers keep the invariant and the canonical form** (round 4):
+    `Context::div` INCLUDING its own pre-shrink of an over-long dividend (done by reference,
+    `repr_round_ref`, to `rhs.digits + p` digits — given sound `digits_ub`/`digits_lb` estimates), `inv`,
+    `sqrt`, `powi` with exponent ≥ 2 (C11's mirrored binary-exponentiation loop at the working precision, then
+    `with_precision`) and `powi` with a negative exponent (power and reciprocal at the reversed context, then
+    `repr_round`): each returns at most `p + 1` digits and the normalised representation, for operands of ANY
+    length.  (`powi(x, 0) = 1`; `powi(x, 1)` and `powf(x, 1)` are `repr_round_ref(x)`: first conjunct of
+    `float_results_fit`.) -/
+theorem float_results_fit_more (B : Nat) (hB : 2 ≤ B) (m : Float.Mode) (c : Float.Coarse) (dub dlb : Int → Nat)
+    (hdub : Float.DubSound B dub) (hdlb : Float.DlbSound B dlb) (sr : Nat → Nat × Nat)
+    (p : Nat) (hp : 1 ≤ p) (x y : Dashu.Model.Float.FRepr) :
+    (y.signif ≠ 0 → ∃ r, Float.ctxDiv B m c dub dlb p x y = .ok r ∧ FitsP1 B p r.1 ∧ FCanon B (ofFloatRepr r.1)) ∧
+    (y.signif ≠ 0 → ∃ r, Float.ctxInv B m p y = .ok r ∧ FitsP1 B p r.1 ∧ FCanon B (ofFloatRepr r.1)) ∧
+    (0 ≤ x.signif → ∃ r, Float.ctxSqrt B m c sr p x = .ok r ∧ FitsP1 B p r.1 ∧ FCanon B (ofFloatRepr r.1)) ∧
+    (∀ fixed bs, FitsP1 B p (Trans.powiNonneg fixed B m c p x bs).2.1 ∧
+      (FCanon B (ofFloatRepr x) → FCanon B (ofFloatRepr (Trans.powiNonneg fixed B m c p x bs).2.1))) ∧
+    (∀ fixed n r, Trans.powiNeg fixed B m c p x n = .ok r → FitsP1 B p r.2.2.1 ∧ FCanon B (ofFloatRepr r.2.2.1)) := by
+  refine ⟨fun hy => ?_, fun hy => ?_, fun hs => ?_, fun fixed bs => ⟨powiNonneg_fits fixed B hB m c p hp x bs,
+    fun hx => powiNonneg_fcanon fixed B hB m c p x hx bs⟩,
+    fun fixed n r h => ⟨powiNeg_fits fixed B hB m c p hp x n r h, powiNeg_fcanon fixed B hB m c p x n r h⟩⟩
+  · obtain ⟨r, h, hf⟩ := ctxDiv_fits B hB m c dub dlb hdub hdlb p hp x y hy
+    exact ⟨r, h, hf, ctxDiv_fcanon B hB m c dub dlb p x y r h⟩
+  · obtain ⟨r, h, hf⟩ := ctxInv_fits B hB m p hp y hy
+    exact ⟨r, h, hf, ctxInv_fcanon B hB m p y r h⟩
+  · obtain ⟨r, h, hf⟩ := ctxSqrt_fits B hB m c sr p hp x hs
+    exact ⟨r, h, hf, ctxSqrt_fcanon B hB m c sr p x r h⟩
+
+-- non-vacuity: a 7-digit dividend at precision 3 goes through the pre-shrink (exact digit counts are sound
+-- estimates): 1234567 / 7 = 176·10^3; 1.2345^5 = 2.87; 1.2345^-3 = 0.532; sqrt 2 = 1.41
+example : Float.DubSound 10 (fun s => Float.digitsI 10 s) ∧ Float.DlbSound 10 (fun s => Float.digitsI 10 s) ∧
+    (Float.ctxDiv 10 .halfEven Float.coarseNone (fun s => Float.digitsI 10 s) (fun s => Float.digitsI 10 s) 3
+      ⟨1234567, 0⟩ ⟨7, 0⟩).toOption.map (·.1) = some ⟨176, 3⟩ ∧
+    (Trans.powiNonneg false 10 .halfEven Float.coarseNone 3 ⟨12345, -4⟩ (Trans.lowBits 5)).2.1 = ⟨287, -2⟩ ∧
+    (Trans.powiNeg false 10 .halfEven Float.coarseNone 3 ⟨12345, -4⟩ 3).toOption.map (·.2.2.1) = some ⟨532, -3⟩ ∧
+    (Float.ctxSqrt 10 .halfEven Float.coarseNone Float.natSqrtRem 3 ⟨2, 0⟩).toOption.map (·.1) = some ⟨141, -2⟩ := by
+  refine ⟨fun _ => Nat.le_refl _, fun _ => Nat.le_refl _, by decide +kernel, by decide +kernel, by decide +kernel,
+    by decide +kernel⟩
+
+/-- **The constructors of floats meet the invariant with NO spare digit** (`digits ≤ precision`) and hand out the
+    normalised representation: `FBig::from_parts` / `From<IBig>` / `From<primitive>` (precision = digit count of the
+    significand as given, at least 1; `Repr::new` strips trailing zero digits, it never adds digits),
+    `Context::convert_int` (`Repr::new(n, 0)` then `repr_round`), and the parser (`Repr::from_str_native`: the
+    significand is `int·B^df + fract` — or `int` when the fraction is zero — from `di + df` digit characters, the
+    precision is that character count `ndigits ≥ 1`), any sign, any scale. -/
+theorem float_sources_fit (B : Nat) (hB : 2 ≤ B) (m : Float.Mode) (c : Float.Coarse) (p : Nat) (hp : 1 ≤ p)
+    (s e : Int) (int fr di df : Nat) (neg : Bool) (hi : int < B ^ di) (hf : fr < B ^ df) (hn : 1 ≤ di + df) :
+    ((Float.FRepr.new B s e).digits B ≤ max (Float.digitsI B s) 1 ∧ FCanon B (ofFloatRepr (Float.FRepr.new B s e))) ∧
+    (FitsP1 B p (Float.reprRound B m c p (Float.FRepr.new B s 0)).1 ∧
+      FCanon B (ofFloatRepr (Float.reprRound B m c p (Float.FRepr.new B s 0)).1)) ∧
+    (let sg : Int := (if neg then -1 else 1) * ((if fr = 0 then int else int * B ^ df + fr : Nat) : Int)
+     (Float.FRepr.new B sg e).digits B ≤ di + df ∧ FCanon B (ofFloatRepr (Float.FRepr.new B sg e))) :=
+  ⟨fromParts_fits B hB s e, convertInt_fits B hB m c p hp s, parse_fits B hB int fr di df neg e hi hf hn⟩
+
+-- non-vacuity: "-012.3400" (di = 3, df = 4): significand 0123400 → -1234·10^-2, 4 ≤ 7 digits
+example : (12 < 10 ^ 3) ∧ (3400 < 10 ^ 4) ∧ Float.FRepr.new 10 (-(12 * 10 ^ 4 + 3400)) (-4) = ⟨-1234, -2⟩ := by
+  refine ⟨by decide, by decide, by decide +kernel⟩
 
 /-- hence comparison of any two such results (of any precisions `pa`, `pb ≥ 1`, any rounding modes —
     the mode does not occur in the comparison) is the order of their exact values -/
